@@ -46,3 +46,19 @@ def c16(run):
         "duration strings sign x 0-120h x 0-130m in three layouts, date strings per year with all separators, "
         "range rows and plus rows per start offset; quick tier samples rows/years by seed) and every observation "
         "of the real value types is judged by TLC against KValues/KCalendar")
+
+
+@check("C15", "Trace_Calendar")
+def c15(run):
+    cases, r = run.mc("MC_Calendar", {})
+    obs = run.drive(cases, case_timeout=600)
+    flagged = run.judge("Trace_Calendar", obs, chunk=700)
+    run.exhaustive = run.tier == "thorough"
+    run.assumptions = ["per-date tables are run-length encoded by the driver (lossless)",
+                       "periods whose true bounds leave 0000-01-01..9999-12-31 are compared after clipping to that range; "
+                       "Previous() is judged only where the previous period is representable"]
+    return vlib.finish(run, flagged, rule_text=
+        "one TLC state per calendar year (thorough: all 10000 years = all 3652425 dates; quick: boundary years plus a "
+        "seed-rotated 1-in-40 sample): weekday, ISO week/week-year, quarter, week/month/quarter/year period bounds, "
+        "previous periods, report-bucket hashes and all period pattern strings of the year, recorded from klog.Date / "
+        "period.* and judged by TLC against KCalendar; bucket classes compared globally over a window of years")
